@@ -66,8 +66,74 @@ var subC10 = harness.NewSub("c10-destination-ssrc", func(c valCase, d harness.Di
 	return nil
 })
 
+// c10MaximalLists: "including empty and maximal lists" - the longest list each type's wire
+// format holds (31 report blocks, chunks or sources, 253 NACK pairs, 255 REMB SSRCs, 32766 FIR
+// entries, 8 CCFB blocks filling the packet, an XR with as many DLRR sub-blocks as fit), with
+// distinct SSRCs so that order, duplicates and a missing tail all show.
+func c10MaximalLists() []m.Packet {
+	rb := func(n int) []m.RBlock {
+		out := make([]m.RBlock, n)
+		for i := range out {
+			out[i] = m.RBlock{SSRC: 0x1000 + uint32(i)}
+		}
+		return out
+	}
+	u32s := func(n int, base uint32) []uint32 {
+		out := make([]uint32, n)
+		for i := range out {
+			out[i] = base + uint32(i)
+		}
+		return out
+	}
+	sdes := &m.SDES{}
+	for i := 0; i < 31; i++ {
+		sdes.Chunks = append(sdes.Chunks, m.SDESChunk{Source: 0x2000 + uint32(i), Items: []m.SDESItem{{Type: 1, Text: []byte("c")}}})
+	}
+	nack := &m.NACK{Sender: 1, Media: 0x3000}
+	for i := 0; i < 253; i++ {
+		nack.Pairs = append(nack.Pairs, m.NackPair{PID: uint16(i * 20), BLP: uint16(i)})
+	}
+	fir := &m.FIR{Sender: 1, Media: 2, Entries: make([]m.FIREntry, 32766)}
+	for i := range fir.Entries {
+		fir.Entries[i] = m.FIREntry{SSRC: 0x40000 + uint32(i), Seq: uint8(i)}
+	}
+	fir2 := &m.FIR{Sender: 1, Media: 2, Entries: make([]m.FIREntry, 8193)}
+	for i := range fir2.Entries {
+		fir2.Entries[i] = m.FIREntry{SSRC: 0x50000 + uint32(i), Seq: uint8(i)}
+	}
+	dlrr := m.XRBlock{BT: m.XRDLRR}
+	for i := 0; i < 5000; i++ {
+		dlrr.Subs = append(dlrr.Subs, m.DLRRSub{SSRC: 0x60000 + uint32(i), LastRR: uint32(i), DLRR: 7})
+	}
+	out := []m.Packet{
+		{Kind: m.KSR, SR: &m.SR{SSRC: 9, Reports: rb(31)}},
+		{Kind: m.KRR, RR: &m.RR{SSRC: 9, Reports: rb(31)}},
+		{Kind: m.KSDES, SDES: sdes},
+		{Kind: m.KBYE, BYE: &m.BYE{Sources: u32s(31, 0x7000)}},
+		{Kind: m.KNACK, NACK: nack},
+		{Kind: m.KREMB, REMB: &m.REMB{Sender: 1, Bitrate: 1e6, SSRCs: u32s(255, 0x8000)}},
+		{Kind: m.KFIR, FIR: fir},
+		{Kind: m.KFIR, FIR: fir2},
+		{Kind: m.KXR, XR: &m.XR{Sender: 3, Blocks: []m.XRBlock{dlrr}}},
+	}
+	for _, p := range c02MaxSizeValues() {
+		if p.Kind == m.KCCFB {
+			out = append(out, p)
+		}
+	}
+	return out
+}
+
 func TestC10(t *testing.T) {
 	defer harness.Uncaught(t)
+	if harness.Cfg.Shard == 0 {
+		for _, p := range c10MaximalLists() {
+			subC10.Check(t, valCase{P: p})
+			harness.Eval(subC10.Name+"/maximal-list", 1)
+			harness.Class("maximal-list:"+string(p.Kind), 1)
+			harness.NonTrivialDistinct(1)
+		}
+	}
 	harness.RapidCheck(t, harness.Scale(8000, 60000), 10, func(rt *rapid.T) {
 		c := valCase{P: genValue(rt)}
 		n := len(m.DestSSRC(c.P))
